@@ -241,6 +241,8 @@ where
                     tree.append(&mut leaves);
                     tree.commit();
                     self.tree = tree;
+                    #[cfg(sos_verif)]
+                    sos_core::verif::crash_point("fs.evlog.rewind.after-tree");
                 } else {
                     return Err(Error::RewindLeavesLength.into());
                 }
@@ -251,6 +253,8 @@ where
                 let mut guard =
                     file.lock_write().await.map_err(|e| e.error)?;
                 guard.inner_mut().set_len(length).await?;
+                #[cfg(sos_verif)]
+                sos_core::verif::crash_point("fs.evlog.rewind.after-truncate");
 
                 return Ok(records);
             }
@@ -348,10 +352,14 @@ where
             file.seek(SeekFrom::End(0)).await?;
         }
 
+        #[cfg(sos_verif)]
+        sos_core::verif::crash_point("fs.evlog.append.before-write");
         let mut guard = file.lock_write().await.map_err(|e| e.error)?;
         match guard.write_all(&buffer).await {
             Ok(_) => {
                 guard.flush().await?;
+                #[cfg(sos_verif)]
+                sos_core::verif::crash_point("fs.evlog.append.after-write");
                 let mut hashes =
                     commits.iter().map(|c| *c.as_ref()).collect::<Vec<_>>();
                 self.tree.append(&mut hashes);
@@ -410,12 +418,18 @@ where
     ) -> StdResult<(), Self::Error> {
         // Create a snapshot for disc-based implementations
         let snapshot = self.try_create_snapshot().await?;
+        #[cfg(sos_verif)]
+        sos_core::verif::crash_point("fs.evlog.replace.after-snapshot");
 
         // Erase the file content and in-memory merkle tree
         self.clear().await?;
+        #[cfg(sos_verif)]
+        sos_core::verif::crash_point("fs.evlog.replace.after-clear");
 
         // Apply the new events
         self.patch_unchecked(&diff.patch).await?;
+        #[cfg(sos_verif)]
+        sos_core::verif::crash_point("fs.evlog.replace.after-patch");
 
         // Verify against the checkpoint
         let computed = self.tree().head()?;
@@ -536,6 +550,8 @@ where
         file.seek(SeekFrom::Start(0)).await?;
 
         let mut guard = file.lock_write().await.map_err(|e| e.error)?;
+        #[cfg(sos_verif)]
+        sos_core::verif::crash_point("fs.evlog.truncate.after-truncate");
         guard.write_all(self.identity).await?;
         if let Some(version) = self.version {
             guard.write_all(&version.to_le_bytes()).await?;
